@@ -774,6 +774,30 @@ func (x *tr) expr(e ast.Expr) string {
 	return ""
 }
 
+// stateWrite: a write to something that outlives the call (a field of the receiver, a package-level
+// variable, the target of a pointer) is only translated if the target hands that binder back - in its
+// final expression or as threaded effect state; otherwise the write would be lost silently
+func (x *tr) stateWrite(lhs ast.Expr, nm string) {
+	if _, isLocal := lhs.(*ast.Ident); isLocal && !strings.HasPrefix(nm, "g_") {
+		return
+	}
+	for _, e := range x.t.effects {
+		if e == nm {
+			return
+		}
+	}
+	isId := func(c byte) bool {
+		return c == '_' || c == '\'' || c >= '0' && c <= '9' || c >= 'a' && c <= 'z' || c >= 'A' && c <= 'Z'
+	}
+	f := x.t.final
+	for i := 0; i+len(nm) <= len(f); i++ {
+		if f[i:i+len(nm)] == nm && (i == 0 || !isId(f[i-1])) && (i+len(nm) == len(f) || !isId(f[i+len(nm)])) {
+			return
+		}
+	}
+	x.bad(lhs, "write to state that the target does not return ("+nm+")")
+}
+
 // deref: *p where p is a pointer parameter the target threads through as state (its pointee is the
 // binder of that name; the pointer itself is only ever passed on to declared calls)
 func (x *tr) deref(z *ast.StarExpr) (string, bool) {
@@ -1222,6 +1246,7 @@ func (x *tr) seq(stmts []ast.Stmt, k func() string) string {
 			if x.kindOf(z.X) != "Z" {
 				x.bad(z, "increment of a non-integer")
 			}
+			x.stateWrite(z.X, nm)
 			return x.let(nm, "("+x.use(nm)+op+")", tail)
 		}
 	case *ast.AssignStmt:
@@ -1524,6 +1549,7 @@ func (x *tr) assignStrict(z *ast.AssignStmt, tail func() string) string {
 		if z.Tok == token.ASSIGN {
 			x.use(nm) // plain assignment to something that is not in scope (a field the target does not track)
 		}
+		x.stateWrite(z.Lhs[i], nm)
 		names = append(names, nm)
 		vals = append(vals, rhs)
 	}
